@@ -37,12 +37,16 @@ PlansC12q == { <<M(2), M(1), M(2)>>, <<M(2), MA(2), M(1)>>, <<M(3), M(2)>> }
 PlansC12  == { <<M(2), M(1), M(2)>>, <<M(2), MA(2), M(1)>>, <<M(3), M(2)>>, <<MA(1), M(2), M(1)>>,
                <<M(2), M(2), MA(3)>>, <<M(1), M(1), M(1), M(1)>> }
 
+\* ---- C20: histories of single- and multi-chunk messages received back to back
+PlansC20  == [1..3 -> {M(1), M(2), M(3)}]
+
 \* ---- C13: floods of intermediate chunks over many request ids, never completed
 PlansC13  == { <<MCut(2, 1), MCut(2, 1), MCut(2, 1), MCut(2, 1), M(1)>>,
                <<MCut(4, 3), MCut(2, 1), M(1)>>,
                <<MCut(5, 4), M(1)>> }
 \* k request ids with c intermediate chunks each, none of them ever completed
 Flood(k, c) == [i \in 1..k |-> MCut(c + 1, c)]
-FloodsQ   == { Flood(40, 1), Flood(14, 3) }
-FloodsT   == { Flood(40, 1), Flood(14, 3), Flood(120, 1), Flood(30, 4), Flood(6, 4) }
+\* (Flood(3, 6) also exceeds the limit inside one request id: the "too many chunks" path)
+FloodsQ   == { Flood(40, 1), Flood(14, 3), Flood(3, 6) }
+FloodsT   == { Flood(40, 1), Flood(14, 3), Flood(3, 6), Flood(120, 1), Flood(30, 4), Flood(6, 4), Flood(2, 12) }
 =============================================================================
